@@ -54,6 +54,45 @@ def run(ctx):
                 break
     ctx.ob('C40.two-arms', 'DataPacketReceiver.crc-state.good-xor-bad', why is None, good[0].loc,
            'good and bad must be the two outcomes of one comparison with crc32.crc: %s' % why)
+    # the payload CRC starts from its initial value for every packet: on every path from a state that advances the CRC
+    # back to such a state the CRC is cleared -- in a state that raises crc32.clear whenever it is occupied, or on an edge
+    # whose conditions include those of a clear.  (A clear only at the end of the normal path leaves the residue of an
+    # aborted payload in place: the next, valid packet is then reported bad.)
+    crcsub = [sm.name for sm in ir.submodules if getattr(getattr(sm, 'obj', None), 'clsname', None) == 'DataPacketPayloadCRC']
+    ctx.need(len(crcsub) == 1, 'the payload CRC32 submodule of DataPacketReceiver')
+    CP = crcsub[0] + '.'
+    adv = [a for a in ir.assigns if a.lhs.canon().startswith(CP + 'advance') and not q.is_zero(a.rhs)]
+    clr = q.raises(ir, CP + 'clear')
+    ctx.need(adv and all(a.state for a in adv) and clr, 'advance / clear drivers of the payload CRC32')
+    A = {q.state_of(a) for a in adv}
+    always = {q.state_of(c) for c in clr if c.state and not [x for x in q.atoms(c)]}
+    bad_path = None
+    if any(c.state is None and not q.atoms(c) for c in clr):
+        pass                                    # cleared in every cycle outside ... nothing to check structurally
+    else:
+        def clearing(e):
+            return any((c.state is None or q.state_of(c) == e.src) and q.atoms(c) <= q.atoms(e) for c in clr)
+        work = [e for e in fsm.edges if e.src in A and e.dst not in A and not clearing(e)]
+        seen_s = set()
+        trail = {}
+        while work and bad_path is None:
+            e = work.pop()
+            s_ = e.dst
+            if s_ in A:
+                bad_path = e
+                break
+            if s_ in always or s_ in seen_s:
+                continue
+            seen_s.add(s_)
+            for e2 in fsm.out_edges(s_):
+                if not clearing(e2):
+                    trail[id(e2)] = e
+                    work.append(e2)
+    ctx.ob('C40.crc-restarts', 'DataPacketReceiver.crc32.clear-before-every-payload', bad_path is None,
+           bad_path.loc if bad_path is not None else clr[0].loc,
+           'a path leaves the payload state(s) %s and returns there without clearing the payload CRC32 (last edge %s): a packet '
+           'following an aborted one is checked against a CRC that did not start from its initial value' % (
+               sorted(A), q.fmt(bad_path) if bad_path is not None else None))
     # (b) valid gating of every decision that depends on the received word
     word = {'self.sink.payload', 'self.sink.ctrl'}
     n = 0
@@ -105,9 +144,11 @@ def run(ctx):
                'good/bad may only be raised after an accepted data header')
     # (d) masks, selects, length
     for i in range(4):
-        ds = ir.drivers('self.source.valid', exact=True)
-        d = [x for x in ds if x.lhs.canon() == 'self.source.valid[%d:%d]' % (i, i + 1)]
-        ok = len(d) == 1 and q.conj(d[0].rhs) == {('data_bytes_remaining >= %d' % (i + 1), True), ('self.sink.valid', True)}
+        bd = q.bits_drivers(ir, 'self.source.valid', i, i + 1)          # bit i, written on its own or inside a Cat()
+        d = [x for x, _ in bd]
+        ok = len(bd) == 1 and bd[0][1] is not None and \
+            q.conj(bd[0][1]) == {(('data_bytes_remaining >= %d' % (i + 1), True) if i else ('0 == data_bytes_remaining', False)),
+                                 ('self.sink.valid', True)}
         ctx.ob('C40.byte-valid', 'DataPacketReceiver.source.valid[%d]' % i, ok, d[0].loc if d else None,
                'valid[%d] must be (remaining > %d) & sink.valid' % (i, i))
     for port, val in (('advance_word', 15), ('advance_3B', 7), ('advance_2B', 3), ('advance_1B', 1)):
